@@ -20,9 +20,9 @@ theorem selector_must_be_contiguous (sel raw : String) (allowScopes periods : Bo
     separators are rejected; and scopes appear only where they are allowed (not in `import`). -/
 theorem selector_components_valid (sel raw : String) (allowScopes periods : Bool)
     (h : checkSelector sel raw allowScopes periods = true) :
-    isModuleStr ((sel.splitOn "/").getLastD "") = true ∧
-    (∀ s ∈ (sel.splitOn "/").dropLast, (if periods then isModuleStr s else isIdentStr s) = true) ∧
-    (allowScopes = false → (sel.splitOn "/").length = 1) := by
+    isModuleStr ((splitChar sel '/').getLastD "") = true ∧
+    (∀ s ∈ (splitChar sel '/').dropLast, (if periods then isModuleStr s else isIdentStr s) = true) ∧
+    (allowScopes = false → (splitChar sel '/').length = 1) := by
   simp only [checkSelector, Bool.and_eq_true, beq_iff_eq, List.all_eq_true, Bool.or_eq_true] at h
   refine ⟨h.1.2, h.1.1.2, ?_⟩
   intro hs
